@@ -268,6 +268,12 @@ def model_dict(m, z3, rng=48):
                 out["funcs"]["Mem"] = vals
         except Exception:
             continue
+    try:
+        from .vals import _INTERN
+
+        out["atoms"] = {str(v): k for k, v in _INTERN.items()}
+    except Exception:  # noqa: BLE001
+        pass
     return out
 
 
